@@ -76,13 +76,15 @@ func c17StoreWalks(rep *evid.Reporter, maxN int) (walks, fetches int) {
 			for i := n - 1; i >= 0; i-- {
 				wantLogs = append(wantLogs, fmt.Sprint(i))
 			}
-			for page := uint64(1); page <= uint64(n)+1; page++ {
-				opts := ledgerstore.NewPaginatedQueryOptions(ledgerstore.PITFilterWithVolumes{}).WithQueryBuilder(qb).WithPageSize(page)
-				name := fmt.Sprintf("n=%d page=%d filtered=%v", n, page, filtered)
-				// transactions (column pagination, id desc)
-				txWalk := func() ([]string, [][]string, string) {
-					q := ledgerstore.NewGetTransactionsQuery(opts)
-					return walkCursor(func(tok string) (*sharedapi.Cursor[string], error) {
+			far := ledger.Time{Time: c04T2.Time.AddDate(1, 0, 0)}
+			for _, pit := range []*ledger.Time{nil, &far} {
+				for page := uint64(1); page <= uint64(n)+1; page++ {
+					// with a point in time the listings are other statements (lateral joins on the metadata history, distinct on)
+					opts := ledgerstore.NewPaginatedQueryOptions(ledgerstore.PITFilterWithVolumes{PITFilter: ledgerstore.PITFilter{PIT: pit}}).WithQueryBuilder(qb).WithPageSize(page)
+					name := fmt.Sprintf("n=%d page=%d filtered=%v pit=%v", n, page, filtered, pit != nil)
+					// transactions (column pagination, id desc)
+					storeWalk(rep, "transactions "+name, wantTx, page, func(tok string) (*sharedapi.Cursor[string], error) {
+						q := ledgerstore.NewGetTransactionsQuery(opts)
 						if tok != "" {
 							q = ledgerstore.GetTransactionsQuery{}
 							if err := bunpaginate.UnmarshalCursor(tok, &q); err != nil {
@@ -94,14 +96,11 @@ func c17StoreWalks(rep *evid.Reporter, maxN int) (walks, fetches int) {
 							return nil, err
 						}
 						return sharedapi.MapCursor(cur, func(t ledger.ExpandedTransaction) string { return t.ID.String() }), nil
-					}, n+3, &fetches)
-				}
-				judgeWalk(rep, "transactions "+name, txWalk, wantTx)
-				walks++
-				// accounts (offset pagination, address asc)
-				accWalk := func() ([]string, [][]string, string) {
-					q := ledgerstore.NewGetAccountsQuery(opts)
-					return walkCursor(func(tok string) (*sharedapi.Cursor[string], error) {
+					}, &fetches)
+					walks++
+					// accounts (offset pagination, address asc)
+					storeWalk(rep, "accounts "+name, wantAcc, page, func(tok string) (*sharedapi.Cursor[string], error) {
+						q := ledgerstore.NewGetAccountsQuery(opts)
 						if tok != "" {
 							q = ledgerstore.GetAccountsQuery{}
 							if err := bunpaginate.UnmarshalCursor(tok, &q); err != nil {
@@ -113,14 +112,11 @@ func c17StoreWalks(rep *evid.Reporter, maxN int) (walks, fetches int) {
 							return nil, err
 						}
 						return sharedapi.MapCursor(cur, func(a ledger.ExpandedAccount) string { return a.Address }), nil
-					}, n+4, &fetches)
-				}
-				judgeWalk(rep, "accounts "+name, accWalk, wantAcc)
-				walks++
-				if !filtered {
-					logWalk := func() ([]string, [][]string, string) {
-						q := ledgerstore.NewGetLogsQuery(ledgerstore.NewPaginatedQueryOptions[any](nil).WithPageSize(page))
-						return walkCursor(func(tok string) (*sharedapi.Cursor[string], error) {
+					}, &fetches)
+					walks++
+					if !filtered && pit == nil {
+						storeWalk(rep, "logs "+name, wantLogs, page, func(tok string) (*sharedapi.Cursor[string], error) {
+							q := ledgerstore.NewGetLogsQuery(ledgerstore.NewPaginatedQueryOptions[any](nil).WithPageSize(page))
 							if tok != "" {
 								q = ledgerstore.GetLogsQuery{}
 								if err := bunpaginate.UnmarshalCursor(tok, &q); err != nil {
@@ -132,10 +128,9 @@ func c17StoreWalks(rep *evid.Reporter, maxN int) (walks, fetches int) {
 								return nil, err
 							}
 							return sharedapi.MapCursor(cur, func(l ledger.ChainedLog) string { return l.ID.String() }), nil
-						}, n+3, &fetches)
+						}, &fetches)
+						walks++
 					}
-					judgeWalk(rep, "logs "+name, logWalk, wantLogs)
-					walks++
 				}
 			}
 		}
@@ -144,59 +139,22 @@ func c17StoreWalks(rep *evid.Reporter, maxN int) (walks, fetches int) {
 	return
 }
 
-// walkCursor follows next until hasMore is false; also fetches the previous page of every page after the first.
-// Returns the concatenation, the previous-page results aligned with pages[1:], and an error description.
-func walkCursor(fetch func(tok string) (*sharedapi.Cursor[string], error), maxPages int, fetches *int) (all []string, pagesAndPrev [][]string, errText string) {
-	tok := ""
-	var pages [][]string
-	var prevs []string
-	for i := 0; i < maxPages; i++ {
-		cur, err := fetch(tok)
-		*fetches++
-		if err != nil {
-			return nil, nil, err.Error()
-		}
-		pages = append(pages, cur.Data)
-		prevs = append(prevs, cur.Previous)
-		all = append(all, cur.Data...)
-		if cur.HasMore != (cur.Next != "") {
-			return nil, nil, "hasMore disagrees with the presence of a next token"
-		}
-		if !cur.HasMore {
-			break
-		}
-		tok = cur.Next
-	}
-	// previous of page k+1
-	for k := 1; k < len(pages); k++ {
-		if prevs[k] == "" {
-			return nil, nil, fmt.Sprintf("page %d has no previous token", k)
-		}
-		cur, err := fetch(prevs[k])
-		*fetches++
-		if err != nil {
-			return nil, nil, "previous: " + err.Error()
-		}
-		if strings.Join(cur.Data, ",") != strings.Join(pages[k-1], ",") {
-			return nil, nil, fmt.Sprintf("previous of page %d yields %v, the page before is %v", k, cur.Data, pages[k-1])
-		}
-	}
-	return all, pages, ""
-}
-
-func judgeWalk(rep *evid.Reporter, name string, walk func() ([]string, [][]string, string), want []string) {
-	all, _, errText := walk()
+// storeWalk explores the whole cursor graph of one store listing (see walkGraph) and reports what disagrees.
+func storeWalk(rep *evid.Reporter, name string, want []string, pageSize uint64, fetch func(tok string) (*sharedapi.Cursor[string], error), fetches *int) {
 	replay := map[string]interface{}{"engine": "cursorwalk-store", "listing": name}
 	kind := strings.Fields(name)[0]
-	if errText != "" {
-		if strings.Contains(errText, "pgmini: unsupported") {
-			rep.Undecide("store-level walk: " + errText)
-			return
+	var st, tr int64
+	ok := walkGraph(want, pageSize, func(tok string) ([]string, string, string, bool, error) {
+		cur, err := fetch(tok)
+		if err != nil {
+			return nil, "", "", false, err
 		}
-		rep.Violation("store-walk-error:"+kind, errText+" ["+name+"]", replay)
-		return
-	}
-	if strings.Join(all, ",") != strings.Join(want, ",") {
-		rep.Violation("store-walk:"+kind, fmt.Sprintf("following next yields %v, the listing in order is %v [%s]", all, want, name), replay)
+		return cur.Data, cur.Next, cur.Previous, cur.HasMore, nil
+	}, func(k, why string) {
+		rep.Violation("store-walk-"+k+":"+kind, why+" ["+name+"]", replay)
+	}, &st, &tr)
+	*fetches += int(tr)
+	if !ok {
+		rep.Undecide("store-level walk: the interpreter cannot execute a statement of " + name)
 	}
 }
